@@ -1,5 +1,5 @@
 """Verify one function against its contract: build the entry state, run the body, emit and discharge obligations."""
-import ast, time, os, subprocess, tempfile, traceback
+import ast, time, os, subprocess, tempfile, traceback, fnmatch
 import z3
 from .z3v import *
 from .source import ClassInfo, FuncInfo
@@ -111,10 +111,18 @@ def verify_function(world, qual, timeout_ms=10000):
         res.error = traceback.format_exc()
         return res
     res.symex_seconds = time.time() - t0
+    known = known_patterns()
+    for ob in ex.obls:
+        if ob.kind == 'proof' and any(fnmatch.fnmatch(ob.name, pat) for pat in known):
+            # a listed finding: one short attempt is enough to see whether it is still there
+            solve_one(ob, 4000)
+            if ob.verdict == 'undecided':
+                ob.note = (ob.note or '') + ' (listed finding: short budget, no retry)'
+                ob.known_budget = True
     discharge(ex.obls, timeout_ms)
     # one retry with a tripled budget for what stayed undecided (solver budgets must not flip verdicts under load)
     for ob in ex.obls:
-        if ob.verdict == 'undecided':
+        if ob.verdict == 'undecided' and not getattr(ob, 'known_budget', False):
             first = ob.seconds
             ob.verdict = None
             solve_one(ob, timeout_ms * 3)
@@ -126,6 +134,16 @@ def verify_function(world, qual, timeout_ms=10000):
         res.solver_seconds += ob.seconds
     res.builtins = sorted(calls.USED_BUILTINS) + ['ASSUMED CONTRACT %s: %s' % (q, w) for q, w in sorted(calls.USED_TRUSTED.items())]
     return res
+
+
+def known_patterns():
+    import json
+    from . import VERIF
+    try:
+        d = json.load(open(os.path.join(VERIF, 'known_findings.json')))
+        return [f['obligation'] for f in d.get('findings', []) if f.get('status') == 'known']
+    except Exception:
+        return []
 
 
 def allowed_exc(world, contract, exc):
